@@ -82,6 +82,11 @@ func (d *Disj) add(l Lit) bool {
 	}
 	d.L[l.A.key] = l
 	d.key = ""
+	// an error that satisfies one of the apimachinery error predicates is not nil
+	if !l.Neg && l.A.Op == "b" && l.A.L != nil && l.A.L.K == 'k' && len(l.A.L.A) == 1 &&
+		strings.HasPrefix(l.A.L.S, "k8s.io/apimachinery/pkg/api/errors.Is") {
+		return d.add(Lit{A: Eq(l.A.L.A[0], NilTerm), Neg: true})
+	}
 	return true
 }
 
